@@ -74,40 +74,41 @@ End Typst.
 
 (* driver entry point: a tree in prefix form
      0 hasr a b kind | 1 hasr a b len cps.. | 2 hasr a b len bytes.. | 3 hasr a b kind | 4 hasr a b n child.. | 5 n child.. *)
-Definition rng (h a b : nat) : option (nat * nat) := match h with 0 => None | _ => Some (a, b) end.
+Definition rng (h a b : N) : option (nat * nat) := match h with 0%N => None | _ => Some (N.to_nat a, N.to_nat b) end.
 
-Fixpoint take_n (n : nat) (l : list nat) : list nat * list nat :=
+(* numbers stay binary (code points and kind codes are large); only ranges and counts become nat *)
+Fixpoint take_n (n : nat) (l : list N) : list N * list N :=
   match n, l with
   | S n', x :: r => let '(a, b) := take_n n' r in (x :: a, b)
   | _, _ => ([], l)
   end.
 
-Fixpoint parse_tree (fuel : nat) (l : list nat) : option (tnode * list nat) :=
+Fixpoint parse_tree (fuel : nat) (l : list N) : option (tnode * list N) :=
   match fuel with
   | 0 => None
   | S f =>
       match l with
-      | 0 :: h :: a :: b :: k :: r => Some (TLeaf (rng h a b) (N.of_nat k), r)
-      | 1 :: h :: a :: b :: n :: r => let '(t, r') := take_n n r in Some (TText (rng h a b) (map N.of_nat t), r')
-      | 2 :: h :: a :: b :: n :: r => let '(t, r') := take_n n r in Some (TStr (rng h a b) (map N.of_nat t), r')
-      | 3 :: h :: a :: b :: k :: r => Some (TTok (rng h a b) (N.of_nat k), r)
-      | 4 :: h :: a :: b :: n :: r =>
-          (fix kids (n : nat) (l : list nat) (acc : list tnode) : option (tnode * list nat) :=
+      | 0%N :: h :: a :: b :: k :: r => Some (TLeaf (rng h a b) k, r)
+      | 1%N :: h :: a :: b :: n :: r => let '(t, r') := take_n (N.to_nat n) r in Some (TText (rng h a b) t, r')
+      | 2%N :: h :: a :: b :: n :: r => let '(t, r') := take_n (N.to_nat n) r in Some (TStr (rng h a b) t, r')
+      | 3%N :: h :: a :: b :: k :: r => Some (TTok (rng h a b) k, r)
+      | 4%N :: h :: a :: b :: n :: r =>
+          (fix kids (n : nat) (l : list N) (acc : list tnode) : option (tnode * list N) :=
              match n with
              | 0 => Some (TNode (rng h a b) (rev acc), l)
              | S n' => match parse_tree f l with Some (c, l') => kids n' l' (c :: acc) | None => None end
-             end) n r []
-      | 5 :: n :: r =>
-          (fix kids (n : nat) (l : list nat) (acc : list tnode) : option (tnode * list nat) :=
+             end) (N.to_nat n) r []
+      | 5%N :: n :: r =>
+          (fix kids (n : nat) (l : list N) (acc : list tnode) : option (tnode * list N) :=
              match n with
              | 0 => Some (TGroup (rev acc), l)
              | S n' => match parse_tree f l with Some (c, l') => kids n' l' (c :: acc) | None => None end
-             end) n r []
+             end) (N.to_nat n) r []
       | _ => None
       end
   end.
 
-Definition run_typst (tbl : list (text * list (nat * nat * N))) (t : text) (tree : list nat) : option (list (nat * nat * N)) :=
+Definition run_typst (tbl : list (text * list (nat * nat * N))) (t : text) (tree : list N) : option (list (nat * nat * N)) :=
   match parse_tree (S (length tree)) tree with
   | Some (TGroup top, []) => opt triples_of (typst_parse (lookup_inner (tbl_of tbl)) (encode t) top)
   | _ => None
